@@ -398,4 +398,45 @@ example : ((resolve demoAfter rootLoc [.name "data", .name "blk", .name "data_ar
 example : ((resolve demoAfter rootLoc [.name "data", .name "blk", .name "data_arrays", .name "a"])).isSome
     = false := by decide +kernel
 
+/-! non-vacuity for unlinking, role clearing and the subtree theorems -/
+
+/-- `del group.data_arrays["a"]` in the demo file is a link-list deletion that succeeds -/
+example : ((openCont demo [.name "data", .name "blk", .name "groups", .name "g"] "data_arrays").map fun c =>
+    (isOwning c.info.flavour, (contDel demo c (.str "a")).toOption.isSome)) = some (false, true) := by
+  decide +kernel
+
+/-- a file with nested sections `s / x / y`, a property and a metadata link from the block to `x` -/
+def demo2Ops : List Op :=
+  [.createBlock "blk" "t",
+   .createSection [] "s" "t",
+   .createSection [.name "metadata", .name "s"] "x" "t",
+   .createSection [.name "metadata", .name "s", .name "sections", .name "x"] "y" "t",
+   .createProperty [.name "metadata", .name "s", .name "sections", .name "x"] "p",
+   .setRole [.name "data", .name "blk"] "metadata" (some [.name "metadata", .name "s", .name "sections", .name "x"])]
+
+def demo2 : Graph := run init demo2Ops
+
+/-- `s` is node 4, `x` node 6, `y` node 8; clearing the block's metadata link succeeds and is not a no-op -/
+example : (resolve demo2 rootLoc [.name "metadata", .name "s"]).map (·.key) = some 4 := by decide +kernel
+example : ((setRole demo2 [.name "data", .name "blk"] "metadata" none).toOption.map fun g' =>
+    decide (g' = demo2)) = some false := by decide +kernel
+/-- the hypothesis of `subtree_complete_of_done` holds for deleting `s` … -/
+example : bfsRest demo2 "sections" (demo2.nodes.length * demo2.nodes.length + 1) [4] = [] := by decide +kernel
+/-- … and so does the forest hypothesis of `subtree_complete`: three sections, 3 ≤ 11² + 1 -/
+example : ForestSize demo2 "sections" [4] 3 := by
+  have k4 : kids demo2 "sections" 4 = [6] := by decide +kernel
+  have k6 : kids demo2 "sections" 6 = [8] := by decide +kernel
+  have k8 : kids demo2 "sections" 8 = [] := by decide +kernel
+  have h8 : ForestSize demo2 "sections" [8] 1 := .cons 8 [] 0 0 (k8 ▸ .nil) .nil
+  have h6 : ForestSize demo2 "sections" [6] 2 := .cons 6 [] 1 0 (k6 ▸ h8) .nil
+  exact .cons 4 [] 2 0 (k4 ▸ h6) .nil
+/-- `y` lies below `s`, and its id is handed to `delete_all` when `s` is deleted -/
+example : Desc demo2 "sections" 4 8 :=
+  .step (m := 6) (by decide +kernel) (.step (m := 8) (by decide +kernel) (.refl 8))
+example : subtreeIds demo2 "sections" 4 = ["id:1", "id:2", "id:3"] := by decide +kernel
+/-- after `del file.sections["s"]` the block's metadata link is gone and `x`, `y`, the property are unreachable -/
+example : ((resolve (step demo2 (.del [] "metadata" (.str "s"))) rootLoc [.name "data", .name "blk", .name "metadata"])).isSome
+    = false := by decide +kernel
+example : ((resolve demo2 rootLoc [.name "data", .name "blk", .name "metadata"])).isSome = true := by decide +kernel
+
 end Nix.C04
